@@ -105,7 +105,14 @@ def judge(K, specs, sig, args, res, consts=None):
             ok = post.truth(e)
         except _cx.TooLarge:
             continue          # too large to evaluate on this input: no verdict from this clause
-        except (IndexError, ContractError, ZeroDivisionError, OverflowError, ValueError) as ex:
+        except ContractError as ex:
+            if 'unknown' in str(ex):
+                # the clause names something the current code does not have (renamed / removed identifier): the contract has drifted from the
+                # code - that is a problem of the check, never a verdict about the code
+                raise
+            bad.append(('post', e, 'clause could not be evaluated: %r' % (ex,)))
+            continue
+        except (IndexError, ZeroDivisionError, OverflowError, ValueError) as ex:
             bad.append(('post', e, 'clause could not be evaluated: %r' % (ex,)))
             continue
         if not ok:
